@@ -10,8 +10,8 @@ from harness import core
 from harness.checks import lifelib as L
 
 C09_KINDS = ['plain', 'body', 'form', 'raise', 'nf', 'm405', 'crash', 'json404', 'hdrs', 'badpath', 'badchunk', 'oversize',
-             'badchunk_json', 'oversize_json', 'mutq', 'latin', 'badmp_json', 'signed', 'forged', 'stat_s', 'stat_n']
-C09_CONFIG = {'max_body_size': 1000}
+             'badchunk_json', 'oversize_json', 'mutq', 'latin', 'badmp_json', 'signed', 'forged', 'stat_s', 'stat_n', 'bigbody']
+C09_CONFIG = {'max_body_size': 1000, 'max_memfile_size': 128}
 
 
 def strip(tr):
@@ -293,7 +293,8 @@ def run_c09(chk):
         model_bad = r.printed('BADPLAN')
         chk.note('model-level: Isolation violated by a sequential history; concretised and replayed below: %s' % (model_bad[:1],))
     chk.exhaustive = True
-    solos = {}
+    # the references: the same request served by a fresh application, each kind in an interpreter that has served nothing else
+    solos = L.reference_table(kinds, ['R%d%s' % (i, 'x' * (i % 4)) for i in range(30)], C09_CONFIG)
 
     def solo(k, n):
         if (k, n) not in solos:
@@ -358,6 +359,7 @@ def retention(chk, thorough):
         app = L.make_app(C09_CONFIG)
         live = []
         counts = []
+        gcs = []
         ns = [40, 400] + ([3000] if thorough else [])
         done = 0
         for n in ns:
@@ -372,7 +374,11 @@ def retention(chk, thorough):
                 done += 1
             gc.collect()
             counts.append(sum(1 for w in live if w() is not None))
+            gcs.append(len(gc.get_objects()) - len(live))
         rows.append({'kind': kind, 'ns': ns, 'live': counts})
+        # everything else a request may leave behind (listeners, closures, open temporary files): all gc-tracked objects, per 100 requests
+        rows.append({'kind': kind + ' (all gc objects, per 100 requests)', 'ns': ns, 'bound': 40,
+                     'live': [0] + [max(0, (gcs[i] - gcs[0]) * 100 // (ns[i] - ns[0])) for i in range(1, len(ns))]})
         chk.count(1, ('retention', kind))
     # per-request allocations that are not reachable from environ (caches keyed by request data): count every gc-tracked
     # object after N1 < N2 requests whose client-chosen parts (multipart boundary, path, query, cookie) differ per request
